@@ -767,6 +767,14 @@ impl Ctx {
         if self.with_corr {
             // (1) structure, numbering included
             self.out.corr(&format!("c15 dump {res}"), &dump);
+            if re.has_tag() && nodes % 3 == 0 {
+                // `tags_map` renames tags and nothing else
+                let k = (nodes % 5) as u64 + 1;
+                if let Ok(mapped) = guarded(|| dump_nfa(&re.build().tags_map(|t| t + k))) {
+                    self.out.corr(&format!("c15 dumpmap {k} {res}"), &mapped);
+                    self.out.hist("tags_map");
+                }
+            }
             // (2) exhaustive bisimulation with the model's subset automaton
             self.out.corr(&format!("c15 bisim {dump} | {}", show_table(&table)), &format!("ok {}", table.ids.len()));
         }
@@ -848,7 +856,7 @@ fn main() {
     let out = cfg.out();
     let mut ctx = Ctx {
         out,
-        enum_budget: if cfg.thorough { 6000 } else { 400 },
+        enum_budget: if cfg.thorough { 6000 } else { 800 },
         words_per_expr: if cfg.thorough { 48 } else { 30 },
         with_corr: true,
     };
@@ -879,7 +887,7 @@ fn main() {
     for re in corner_cases() {
         ctx.check_expr(&re, &mut rng, "corner");
     }
-    let n_random: usize = if cfg.thorough { 40_000 } else { 1_500 };
+    let n_random: usize = if cfg.thorough { 100_000 } else { 4_000 };
     let mut made = 0;
     while made < n_random {
         let depth = 1 + (made % 6);
